@@ -13,7 +13,7 @@ FUNC = (ast.FunctionDef, ast.AsyncFunctionDef, ast.Lambda)
 
 def _bound_here(fn):
     """names bound in fn's own scope (excluding params)"""
-    out, glob = set(), set()
+    out, glob, keep = set(), set(), set()
     params = set()
     a = fn.args
     for x in list(getattr(a, 'posonlyargs', [])) + list(a.args) + list(a.kwonlyargs):
@@ -35,8 +35,9 @@ def _bound_here(fn):
         if isinstance(n, ast.ExceptHandler) and n.name:
             out.add(n.name)
         if isinstance(n, (ast.Import, ast.ImportFrom)):
+            # names bound by a function-local import keep their spelling (the import statement is not rewritten)
             for al in n.names:
-                out.add((al.asname or al.name).split('.')[0])
+                keep.add((al.asname or al.name).split('.')[0])
         if isinstance(n, (ast.ListComp, ast.SetComp, ast.DictComp, ast.GeneratorExp)):
             # comprehension targets live in their own scope: leave them alone
             for g in n.generators:
@@ -47,7 +48,7 @@ def _bound_here(fn):
     body = fn.body if isinstance(fn.body, list) else [fn.body]
     for st in body:
         visit(st, False)
-    return (out - glob) - params, params
+    return ((out - glob) - params) - keep, params
 
 
 class _Renamer(ast.NodeTransformer):
